@@ -134,4 +134,40 @@ Theorem sites_classified :
        ("builder/command.rs", "Command::_build_subcommand", "unwrap", 1);
        ("builder/command.rs", "Command::format_group", "unwrap", 0) ].
 Proof. repeat split; vm_compute; reflexivity. Qed.
+
+(** the panic-shaped sites of the files reached while an error is CONSTRUCTED -- the usage string every error carries
+    ([Usage::create_usage_with_title] from [Error::with_cmd] and the parser's constructors), the help text of a DisplayHelp error
+    ([HelpTemplate], [StyledStr::wrap]).  They are outside the parser model: C12 models them ([Help/UsageModel.v], [HelpModel.v]:
+    every one a visible [None]) and proves them dead for its own class ([C12_usage_total], [C12_padding_safe], [C12_render_total]);
+    for C01 they are DIFFERENTIAL ONLY (the harness renders every error under catch_unwind).  The list is pinned so that a new
+    site on that path is noticed by C01's gate too. *)
+Theorem render_path_sites_listed :
+  Gen.ParseSites.render_path_sites =
+     [
+       ("output/usage.rs", "Usage::write_args", "debug_assert!", 0);
+       ("output/usage.rs", "Usage::write_args", "index", 0);
+       ("output/usage.rs", "Usage::write_args", "debug_assert!", 1);
+       ("output/usage.rs", "Usage::write_args", "unwrap", 0);
+       ("output/usage.rs", "Usage::write_args", "index", 1);
+       ("output/usage.rs", "Usage::write_args", "index", 2);
+       ("output/usage.rs", "Usage::write_args", "unwrap", 1);
+       ("output/usage.rs", "Usage::write_args", "index", 3);
+       ("output/usage.rs", "Usage::write_args", "index", 4);
+       ("output/usage.rs", "Usage::write_args", "index", 5);
+       ("output/usage.rs", "Usage::get_required_usage_from", "debug_assert!", 0);
+       ("output/usage.rs", "Usage::get_required_usage_from", "index", 0);
+       ("output/usage.rs", "Usage::get_required_usage_from", "debug_assert!", 1);
+       ("output/help_template.rs", "HelpTemplate::align_to_about", "sub", 0);
+       ("output/help_template.rs", "HelpTemplate::align_to_about", "sub", 1);
+       ("output/help_template.rs", "HelpTemplate::help", "expect", 0);
+       ("output/help_template.rs", "HelpTemplate::help", "sub", 0);
+       ("output/help_template.rs", "HelpTemplate::help", "sub", 1);
+       ("output/help_template.rs", "HelpTemplate::help", "sub", 2);
+       ("output/help_template.rs", "HelpTemplate::arg_next_line_help", "sub", 0);
+       ("output/help_template.rs", "HelpTemplate::subcommand_next_line_help", "sub", 0);
+       ("output/help_template.rs", "HelpTemplate::subcmd", "sub", 0);
+       ("builder/styled_str.rs", "StyledStr::wrap", "sub", 0);
+       ("builder/styled_str.rs", "StyledStr::wrap", "index", 0);
+       ("builder/styled_str.rs", "StyledStr::wrap", "index", 1) ].
+Proof. vm_compute. reflexivity. Qed.
 End Lists.
